@@ -95,6 +95,7 @@ def errToJson (e : Err) : J :=
     | .resolver m x => ("resolver", J.str m, x.getD .null)
     | .nonnull => ("nonnull", J.null, J.null)
     | .coercion => ("coercion", J.null, J.null)
+    | .directive => ("directive", J.null, J.null)
   .obj [("kind", .str kind), ("path", .arr (e.path.map segToJson)), ("locs", .arr (e.locs.map J.ofNat)),
         ("msg", msg), ("ext", ext)]
 
@@ -104,6 +105,7 @@ def responseToJson : Response → J
   | .failed (.internal c) => .obj [("internal", .str c)]
   | .failed .outOfFuel => .obj [("internal", .str "RecursionError")]
   | .failed .unsupported => .obj [("unsupported", .bool true)]
+  | .failed (.raised _ _ _) => .obj [("internal", .str "ResolverError")]     -- unreachable: `execute` turns it into a result
 
 def handle? (j : J) : Option J :=
   match j.strD "op" with
@@ -124,7 +126,8 @@ def handle? (j : J) : Option J :=
     some (.obj [("model", mj), ("spec", sj), ("quirk_dup", .bool (mj.render != sj.render)),
                 ("validdoc", .bool (PyGql.Spec.validDocB s doc vars)), ("validdoc_why", .str (PyGql.Spec.validDocWhy s doc vars)),
                 ("key_consistent", .bool (PyGql.Spec.keyConsistentB doc)), ("ranked", .bool (PyGql.Spec.rankedB doc)),
-                ("merge_safe", .bool (PyGql.Spec.mergeSafeB s doc))])
+                ("merge_safe", .bool (PyGql.Spec.mergeSafeB s doc)),
+                ("dirs_strict", .bool (PyGql.Spec.dirsStrict vars (PyGql.Spec.docDirs doc)))])
   | "world" =>
     let s := Driver.schemaOfJson (j.getD "schema")
     let w := fnvWorld s (j.natD "seed") (j.natD "mode")
